@@ -1731,6 +1731,8 @@ class Exec:
                 st = st.fork()
                 st.env[nm] = fac(self, st, None)
                 mod_names = mod_names | {nm}
+        # ghost state the contract's method models update (e.g. a map object id -> content): written by calls, invisible to the syntactic scan
+        mod_names = mod_names | {g for g in getattr(self.k, "ghost_state", ()) if g in st.env}
         # --- initialisation
         st0 = st.fork()
         st0.env[kname] = z3.IntVal(0)
